@@ -3,6 +3,11 @@ COMMON_ASSUME = [
     "the Lean model is hand-written; its tie to /repo is the correspondence run of this check (same op lines through real code and model) plus the regenerated GabiModel/Generated.lean",
 ]
 PROPS = {
+    "C19": {
+        "trusted": ["math/big (GCD, Exp, ModInverse, ModSqrt, ProbablyPrime) is external; ProbablyPrime is an oracle assumed correct (the model uses deterministic Miller-Rabin on the tested inputs)",
+                    "the randomised inner routine sumFourSquaresSpecial is not proved: its postcondition is checked by the op sum4 on every call (exhaustively for small n)"],
+        "assumptions": COMMON_ASSUME,
+    },
     "C15": {
         "trusted": ["encoding/asn1 and crypto/sha256 are external; their agreement with the Lean reference (GabiModel.Der, GabiModel.Sha256) is what the correspondence ops test"],
         "assumptions": COMMON_ASSUME + ["SHA-256 collision resistance appears only as an explicit collision disjunct in the theorems"],
